@@ -7,6 +7,7 @@ dirs="$@"; [ -z "$dirs" ] && dirs=$(ls -d seeded/*/)
 fail=0
 for d in $dirs; do
   d=${d%/}; id=$(python3 -c "import json;print(json.load(open('$d/meta.json'))['property'])")
+  if python3 -c "import json,sys;sys.exit(0 if 'obsolete_since' in json.load(open('$d/meta.json')) else 1)"; then echo "skipped $d (obsoleted by a repair of the repository, see its meta.json)"; continue; fi
   if ! git -C /repo diff --quiet; then echo "/repo dirty"; exit 2; fi
   git -C /repo apply /verif/$d/patch.diff || { echo "$d: patch does not apply"; fail=1; continue; }
   ./check $id > /tmp/check_seeded.out 2>&1; code=$?
